@@ -552,6 +552,12 @@ func Cores() int {
 	if n > 16 {
 		n = 16
 	}
+	// VERIF_CORES caps the parallelism (used while several builders share the machine)
+	if s := os.Getenv("VERIF_CORES"); s != "" {
+		if v, err := strconv.Atoi(s); err == nil && v >= 1 && v < n {
+			n = v
+		}
+	}
 	return n
 }
 
